@@ -31,6 +31,7 @@ EXPLANATION = (
     '_ . - /; unit: up to 63 ASCII characters).')
 EXPLANATION += " The shared rule C07.R5 (the view's aggregation config reaches every CreateAggregation call of a storage) is evaluated."
 ROUND2_EXPLANATION = (" C19.R4 also: Builder::Build neither assigns, moves from nor mutates a member. C19.R6 also: PatternPredicate::Match decides by std::regex_match over begin..end. Shared C08.R6: the storage's attributes processor reaches every key built from caller attributes.")
+ROUND2_EXPLANATION += (" C19.R3 also: each matched view shapes its own copy of the instrument descriptor, and that copy - like the view's attribute filter - is the one that reaches the storage. C19.R6 also: an exact selector compares the whole string (size and content). Shared C06.R7: collection visits every meter and every storage, and no iteration callback asks to stop.")
 EXPLANATION += ROUND2_EXPLANATION
 NOT_DECIDED = 'that std::regex implements the parsed normal form; pattern predicates supplied by users; attribute equality of scopes.'
 
